@@ -137,7 +137,9 @@ package model
 //@ spec imp(l BiasListener, p *DecisionMakingParams, id string) real
 
 //@ ifacemethod BiasListener.RankCriteriaAscending
-//@   requires distinctCriteria(params.Criteria)
+//@   requires [distinct] distinctCriteria(params.Criteria)
+//@   requires [valid] validParams(self, params.MethodParameters)
+//@   requires [covered] forall k int :: 0 <= k && k < len(params.Criteria) ==> coversId(self, params.MethodParameters, params.Criteria[k].Id)
 //@   ensures result != nil && fresh(result) && fresh(*result) && len(*result) == len(params.Criteria)
 //@   ensures forall k int :: 0 <= k && k < len(*result) ==> exists j int :: 0 <= j && j < len(params.Criteria) && (*result)[k].Criterion == params.Criteria[j]
 //@   ensures forall i int, j int :: 0 <= i && i < j && j < len(*result) ==> (*result)[i].Id != (*result)[j].Id && (*result)[i].Weight <= (*result)[j].Weight
@@ -217,24 +219,35 @@ package model
 // ---- bias listener interface: abstract predicates and method contracts (C07)
 // coversId(l, p, id): the method parameters p (of the method l listens for) hold what the method needs for criterion id.
 // accepts(l, x, id):  x is an addition for criterion id that l.Merge takes.
+//@ spec validParams(l BiasListener, p MethodParameters) bool
 //@ spec coversId(l BiasListener, p MethodParameters, id string) bool
 //@ spec accepts(l BiasListener, x MethodParameters, id string) bool
+//@ spec acceptsAny(l BiasListener, x MethodParameters) bool
 
 //@ pred hasValues(a []AlternativeWithCriteria, c []Criterion) = forall i int, k int :: 0 <= i && i < len(a) && 0 <= k && k < len(c) ==> c[k].Id in a[i].Criteria
 //@ pred coversAll(l BiasListener, p MethodParameters, c []Criterion) = forall k int :: 0 <= k && k < len(c) ==> coversId(l, p, c[k].Id)
 //@ pred coherent(l BiasListener, d DecisionMakingParams) =
 //@      distinctCriteria(d.Criteria) && hasValues(d.ConsideredAlternatives, d.Criteria) && hasValues(d.NotConsideredAlternatives, d.Criteria)
-//@   && coversAll(l, d.MethodParameters, d.Criteria)
+//@   && validParams(l, d.MethodParameters) && coversAll(l, d.MethodParameters, d.Criteria)
 
+// Interface method contracts.  The abstract predicates have no heap argument: method-parameter objects are never
+// modified after they are built (every function's frame contract), so a fact about them stays true.
+// Each listener refines these contracts with its own definitions ("refines ... with coversId=..., ...").
 //@ ifacemethod BiasListener.OnCriteriaRemoved
-//@   requires coversAll(self, params, *leftCriteria)
-//@   ensures coversAll(self, result, *leftCriteria)
+//@   requires [valid] validParams(self, params)
+//@   requires [covered] forall k int :: 0 <= k && k < len(*leftCriteria) ==> coversId(self, params, (*leftCriteria)[k].Id)
+//@   ensures [valid] validParams(self, result)
+//@   ensures [covered] forall k int :: 0 <= k && k < len(*leftCriteria) ==> coversId(self, result, (*leftCriteria)[k].Id)
 //@ ifacemethod BiasListener.OnCriterionAdded
-//@   requires coversId(self, params, referenceCriterion.Id)
-//@   ensures accepts(self, result, criterion.Id)
+//@   requires [valid] validParams(self, params)
+//@   requires [reference_covered] coversId(self, params, referenceCriterion.Id)
+//@   ensures [accepted_by_merge] accepts(self, result, criterion.Id) && acceptsAny(self, result)
 //@ ifacemethod BiasListener.Merge
-//@   ensures forall q string :: coversId(self, params, q) ==> coversId(self, result, q)
-//@   ensures forall q string :: accepts(self, addition, q) ==> coversId(self, result, q)
+//@   requires [valid] validParams(self, params)
+//@   requires [addition] acceptsAny(self, addition)
+//@   ensures [valid] validParams(self, result)
+//@   ensures [old_kept] forall q string :: coversId(self, params, q) ==> coversId(self, result, q)
+//@   ensures [new_covered] forall q string :: accepts(self, addition, q) ==> coversId(self, result, q)
 
 // ---- normalization.go
 
